@@ -10,11 +10,14 @@ import (
 	"github.com/vulcand/oxy/v2/zverif/c14"
 	"github.com/vulcand/oxy/v2/zverif/c17"
 	"github.com/vulcand/oxy/v2/zverif/c19"
+	"github.com/vulcand/oxy/v2/zverif/c20"
 	"github.com/vulcand/oxy/v2/zverif/cb"
 	"github.com/vulcand/oxy/v2/zverif/fwd"
 )
 
 func init() {
+	parts["c20"] = c20.Run
+	replays["c20"] = c20.Replay
 	parts["c08"] = fwd.RunC08
 	replays["c08"] = fwd.ReplayC08
 	parts["c16"] = fwd.RunC16
